@@ -740,7 +740,7 @@ fn process_arm(
             env.push(("TERM".into(), "xterm".into()));
         }
         let spec = ProcSpec {
-            args: vec!["exec".into(), file.to_string_lossy().to_string()],
+            args: vec!["exec".into(), file.clone().into_os_string()],
             env,
             cwd: if i == 2 { "/".into() } else { scratch.path.clone() },
             stdin: input.to_vec(),
